@@ -40,6 +40,11 @@ def scenario(rng, k, tier):
     behind = r < nat
     if not behind:
         true_idx = (r << 16) | (true_idx & 0xffff)
+        # a third of the histories: the first packet after set_roc is far ahead (more than half the sequence space) inside
+        # that same ROC, so it goes through the index-advance path even when r equals the current ROC
+        low = true_idx & 0xffff
+        if rng.random() < 0.35 and low < 30000:
+            true_idx += rng.choice([32769, 33000, 40000, 65535 - low])
     # traffic through two further wraps with mild reordering
     steps = 0
     target = true_idx + 2 * 65536 + 2000
